@@ -34,7 +34,7 @@ pub static PROP: PropDef = PropDef {
     run_tape,
     exhaustive: Some(exhaustive),
     run_direct: Some(run_direct),
-    min_classes: &[("unit_must_reject", 20000), ("unit_must_accept", 20000), ("api_refused_message_error", 1000), ("api_delivered", 1000), ("send_checked", 500), ("one_invalidating_mutation", 5000), ("preserving_mutation", 5000)],
+    min_classes: &[("unit_must_reject", 20000), ("unit_must_accept", 20000), ("api_refused_message_error", 1000), ("api_delivered", 1000), ("send_checked", 500), ("one_invalidating_mutation", 2000), ("preserving_mutation", 2000)],
     extra: None,
 };
 
@@ -417,7 +417,7 @@ fn bases() -> Vec<(MsgKind, Vec<Field>)> {
     ]
 }
 
-const NMUT: usize = 44;
+const NMUT: usize = 48;
 
 /// apply mutation `m` at position `pos`; returns label: 1 = invalidating, 2 = preserving, 0 = unspecified/other, None = not applicable
 fn mutate(kind: MsgKind, fields: &mut Vec<Field>, m: usize, pos: usize) -> Option<u8> {
@@ -614,6 +614,55 @@ fn mutate(kind: MsgKind, fields: &mut Vec<Field>, m: usize, pos: usize) -> Optio
         43 => {
             fields.insert(0, (b":status".to_vec(), b"200".to_vec()));
             Some(0)
+        }
+        // ---- invalidating: Host and :authority differ in ways a lenient comparison would miss
+        44 if kind == MsgKind::Request => {
+            // only in ASCII case
+            let a = fields.iter().find(|(n, _)| n == b":authority").map(|(_, v)| v.clone())?;
+            let i = a.iter().position(|b| b.is_ascii_lowercase())?;
+            let mut h = a.clone();
+            h[(i + pos) % a.len()] = h[(i + pos) % a.len()].to_ascii_uppercase();
+            if h == a {
+                h[i] = h[i].to_ascii_uppercase();
+            }
+            remove(fields, b"host");
+            fields.push((b"host".to_vec(), h));
+            Some(1)
+        }
+        45 if kind == MsgKind::Request => {
+            // only in the port
+            let a = fields.iter().find(|(n, _)| n == b":authority").map(|(_, v)| v.clone())?;
+            let mut h = a.clone();
+            if let Some(c) = h.iter().rposition(|b| *b == b':') {
+                h.truncate(c);
+            } else {
+                h.extend_from_slice(b":443");
+            }
+            remove(fields, b"host");
+            fields.push((b"host".to_vec(), h));
+            Some(1)
+        }
+        46 if kind == MsgKind::Request => {
+            // trailing dot / userinfo
+            let a = fields.iter().find(|(n, _)| n == b":authority").map(|(_, v)| v.clone())?;
+            let mut h = a.clone();
+            if pos % 2 == 0 {
+                h.push(b'.');
+            } else {
+                let mut u = b"u@".to_vec();
+                u.extend_from_slice(&h);
+                h = u;
+            }
+            remove(fields, b"host");
+            fields.push((b"host".to_vec(), h));
+            Some(1)
+        }
+        47 if kind == MsgKind::Request => {
+            // Host only, but empty, next to a valid looking x-host
+            let had = remove(fields, b":authority");
+            remove(fields, b"host");
+            fields.push((b"x-host".to_vec(), b"example.com".to_vec()));
+            had.then_some(1)
         }
         _ => None,
     }
